@@ -44,6 +44,7 @@ type vfGgufWriter struct {
 	muts  map[string]string
 	marks map[string]int // named positions for truncation
 	total int            // length of the unmutated file (for rem+1)
+	data  int            // where the tensor data of the unmutated file starts (for wrap-to-0 / wrap-to-8)
 }
 
 func vfPow(s string) (uint64, bool) {
@@ -80,6 +81,14 @@ func (w *vfGgufWriter) val(field string, exact uint64) uint64 {
 		return exact + 1
 	case "rem+1":
 		return uint64(max(w.total-w.buf.Len(), 0)) + 1
+	case "wrap-to-0", "wrap-to-8":
+		// element count of the second tensor (2-byte elements) that makes "skip Size() bytes" land on byte 0 / 8 of the
+		// file: the first tensor's 24 bytes are padded to 32, so the skip starts at data+32 and 2*n = 2^64 - (data+32) (+ 8)
+		n := (^uint64(0) - uint64(w.data+32) + 1) / 2
+		if v == "wrap-to-8" {
+			n += 4
+		}
+		return n
 	}
 	n, _ := strconv.ParseUint(v, 10, 64)
 	return n
@@ -107,8 +116,8 @@ func (w *vfGgufWriter) str(field, s string) {
 	w.buf.WriteString(s)
 }
 
-func vfBuildGguf(c vfDecodeCase, total int) ([]byte, map[string]int) {
-	w := &vfGgufWriter{ver: c.Ver, muts: map[string]string{}, marks: map[string]int{}, total: total}
+func vfBuildGguf(c vfDecodeCase, total, data int) ([]byte, map[string]int) {
+	w := &vfGgufWriter{ver: c.Ver, muts: map[string]string{}, marks: map[string]int{}, total: total, data: data}
 	w.bo = binary.LittleEndian
 	if c.BE {
 		w.bo = binary.BigEndian
@@ -185,7 +194,7 @@ func vfBuildGguf(c vfDecodeCase, total int) ([]byte, map[string]int) {
 	mark("t1")
 	w.str("t1_namelen", "output.weight")
 	w.u32("t1_dims", 1)
-	w.u64("", 4)
+	w.u64("t1_shape0", 4)
 	w.u32("t1_kind", 1)
 	w.u64("t1_offset", 32)
 	mark("pad")
@@ -207,8 +216,8 @@ func vfBuildGguf(c vfDecodeCase, total int) ([]byte, map[string]int) {
 }
 
 func vfMaterialise(c vfDecodeCase) []byte {
-	base, _ := vfBuildGguf(vfDecodeCase{Ver: c.Ver, BE: c.BE, Big: c.Big}, 0)
-	out, _ := vfBuildGguf(c, len(base))
+	base, marks := vfBuildGguf(vfDecodeCase{Ver: c.Ver, BE: c.BE, Big: c.Big}, 0, 0)
+	out, _ := vfBuildGguf(c, len(base), marks["data"])
 	return out
 }
 
